@@ -10,8 +10,9 @@ import time
 from sim.pool import Pool
 
 VERIF = os.path.dirname(os.path.dirname(os.path.abspath(__file__)))
-REPLAYS = os.path.join(VERIF, "replays")
-EVIDENCE = os.path.join(VERIF, "evidence")
+REPLAYS = os.environ.get("VERIF_REPLAY_DIR") or os.path.join(VERIF, "replays")
+EVIDENCE = os.environ.get("VERIF_EVIDENCE_DIR") or os.path.join(VERIF, "evidence")
+FIXED_REPLAYS = os.path.join(VERIF, "replays", "fixed")
 KNOWN = os.path.join(VERIF, "known_findings.json")
 
 ENGINE_OF = {"C13": "mgrsim", "C14": "mgrsim", "C16": "ocfsim", "C20": "ocfsim", "C19": "revsim"}
@@ -187,7 +188,7 @@ def run_check(prop, tier, verif_seed, workers=None, n_override=None, repo=None, 
     with Pool(workers, repo=repo) as pool:
         # ---- regression replays of repaired defects: a fixed entry suppresses nothing ---
         regress = []
-        fixed_dir = os.path.join(REPLAYS, "fixed")
+        fixed_dir = FIXED_REPLAYS
         if os.path.isdir(fixed_dir):
             for fn in sorted(os.listdir(fixed_dir)):
                 if fn.startswith(prop + "-") and fn.endswith(".json"):
